@@ -491,6 +491,9 @@ def main(run):
     res = run.explore('sweep', cs, run_sweep, budget_s=300)
     run.explore('exchange', cases_exchange(run.tier), run_exchange, budget_s=120)
     run.explore('lag', cases_lag(run.tier), run_lag, budget_s=600)
+    # the summary table of dassh.out through which a user reads this property (vf/props/reports.py)
+    from . import reports
+    run.explore('report-ebal', reports.cases_ebal(run.tier), reports.run_ebal, budget_s=300)
     lim = run.extra.get('limiter', {})
     run.notes['worst_rel_residual'] = max([x['info']['worst_rel_residual'] for x in res
                                            if x.get('info')] or [0.0])
@@ -503,6 +506,9 @@ def main(run):
 
 
 def replay(body):
+    if str((body.get('scenario') or {}).get('probe', '')).startswith('report-'):
+        from . import reports
+        return reports.replay(body)
     from ..run import guarded
     fn = {'sweep': run_sweep, 'exchange': run_exchange, 'lag': run_lag}[body.get('part') or 'sweep']
     r = guarded(fn, body['scenario'], 900)
